@@ -285,6 +285,13 @@ class SkelEval(Eval):
             return repr(x)
         if t[2].startswith('sort'):
             return sorted(v, key=key)
+        if t[2] == 'dedup_all_by_key':
+            out, seen = [], set()
+            for x in v:
+                if key(x) not in seen:
+                    seen.add(key(x))
+                    out.append(x)
+            return out
         if t[2].startswith('dedup'):
             out = []
             for x in v:
